@@ -4,7 +4,7 @@ import MakoModel.Target.Lemmas
 # The code generator only emits well-shaped code
 
 Structural induction over the template (unbounded nesting): every statement `stmts` emits is `WS`, every
-prologue (`hoist`, `callDefs`, `deepDefs`, `bodyHoist`) consists of closure definitions with `WF` bodies, every
+prologue (`hoist`, `callDefs`, `bodyHoist`) consists of closure definitions with `WF` bodies, every
 render callable (`defShape`, `cacheWrapper`) is `WF`.
 -/
 namespace MakoModel.Codegen
@@ -34,12 +34,11 @@ theorem inlineDef_ws (lex : Bool) (name : Name) (ps : List Name) (fl : DefFlags)
   · exact ⟨WS.seq (WS.defn _ _ _ (defShape_wf fl hp hd hb)) (WS.defn _ _ _ (cacheWrapper_wf _ _ _)), rfl⟩
   · exact ⟨WS.defn _ _ _ (defShape_wf fl hp hd hb), rfl⟩
 
-/-- the five mutually recursive emitters, together -/
+/-- the mutually recursive emitters, together -/
 structure Emits (t : Tmpl) : Prop where
   stmts : ∀ sc, WS (stmts sc t)
   hoist : ∀ sc, WS (hoist sc t) ∧ isDefs (hoist sc t) = true
   callDefs : ∀ sc, WS (callDefs sc t) ∧ isDefs (callDefs sc t) = true
-  deepDefs : ∀ sc, WS (deepDefs sc t) ∧ isDefs (deepDefs sc t) = true
   bodyHoist : ∀ sc, WS (bodyHoist sc t) ∧ isDefs (bodyHoist sc t) = true
 
 theorem seq_defs {a b : Stmt} (ha : WS a ∧ isDefs a = true) (hb : WS b ∧ isDefs b = true) :
@@ -51,30 +50,27 @@ theorem skip_defs : WS .skip ∧ isDefs .skip = true := ⟨WS.skip, rfl⟩
 theorem emits (t : Tmpl) : Emits t := by
   induction t with
   | nil => exact ⟨fun _ => by simp only [stmts]; exact WS.skip, fun _ => by simp only [hoist]; exact skip_defs,
-      fun _ => by simp only [callDefs]; exact skip_defs, fun _ => by simp only [deepDefs]; exact skip_defs,
+      fun _ => by simp only [callDefs]; exact skip_defs,
       fun _ => by simp only [bodyHoist]; exact skip_defs⟩
   | seq a b iha ihb =>
     exact ⟨fun sc => by simp only [stmts]; exact WS.seq (iha.stmts sc) (ihb.stmts sc),
       fun sc => by simp only [hoist]; exact seq_defs (iha.hoist sc) (ihb.hoist sc),
       fun sc => by simp only [callDefs]; exact seq_defs (iha.callDefs sc) (ihb.callDefs sc),
-      fun sc => by simp only [deepDefs]; exact seq_defs (iha.deepDefs sc) (ihb.deepDefs sc),
       fun sc => by simp only [bodyHoist]; exact seq_defs (iha.bodyHoist sc) (ihb.bodyHoist sc)⟩
   | text s => exact ⟨fun _ => by simp only [stmts]; exact WS.write _, fun _ => by simp only [hoist]; exact skip_defs,
-      fun _ => by simp only [callDefs]; exact skip_defs, fun _ => by simp only [deepDefs]; exact skip_defs,
+      fun _ => by simp only [callDefs]; exact skip_defs,
       fun _ => by simp only [bodyHoist]; exact skip_defs⟩
   | expr e fs => exact ⟨fun _ => by simp only [stmts]; exact WS.write _, fun _ => by simp only [hoist]; exact skip_defs,
-      fun _ => by simp only [callDefs]; exact skip_defs, fun _ => by simp only [deepDefs]; exact skip_defs,
+      fun _ => by simp only [callDefs]; exact skip_defs,
       fun _ => by simp only [bodyHoist]; exact skip_defs⟩
   | ite cnd a b iha ihb =>
     exact ⟨fun sc => by simp only [stmts]; exact WS.ite _ (iha.stmts sc) (ihb.stmts sc),
       fun sc => by simp only [hoist]; exact seq_defs (iha.hoist sc) (ihb.hoist sc),
       fun sc => by simp only [callDefs]; exact seq_defs (iha.callDefs sc) (ihb.callDefs sc),
-      fun sc => by simp only [deepDefs]; exact seq_defs (iha.deepDefs sc) (ihb.deepDefs sc),
       fun sc => by simp only [bodyHoist]; exact seq_defs (iha.bodyHoist sc) (ihb.bodyHoist sc)⟩
   | for_ x items body ih =>
     refine ⟨fun sc => ?_, fun sc => by simp only [hoist]; exact ih.hoist sc,
       fun sc => by simp only [callDefs]; exact ih.callDefs sc,
-      fun sc => by simp only [deepDefs]; exact ih.deepDefs sc,
       fun sc => by simp only [bodyHoist]; exact ih.bodyHoist sc⟩
     simp only [stmts]
     split
@@ -84,13 +80,11 @@ theorem emits (t : Tmpl) : Emits t := by
     exact ⟨fun sc => by simp only [stmts]; exact WS.whileLt _ (ih.stmts sc),
       fun sc => by simp only [hoist]; exact ih.hoist sc,
       fun sc => by simp only [callDefs]; exact ih.callDefs sc,
-      fun sc => by simp only [deepDefs]; exact ih.deepDefs sc,
       fun sc => by simp only [bodyHoist]; exact ih.bodyHoist sc⟩
   | try_ a b iha ihb =>
     exact ⟨fun sc => by simp only [stmts]; exact WS.tryExcept (iha.stmts sc) (ihb.stmts sc),
       fun sc => by simp only [hoist]; exact seq_defs (iha.hoist sc) (ihb.hoist sc),
       fun sc => by simp only [callDefs]; exact seq_defs (iha.callDefs sc) (ihb.callDefs sc),
-      fun sc => by simp only [deepDefs]; exact seq_defs (iha.deepDefs sc) (ihb.deepDefs sc),
       fun sc => by simp only [bodyHoist]; exact seq_defs (iha.bodyHoist sc) (ihb.bodyHoist sc)⟩
   | def_ name ps fl body ih =>
     have mk : ∀ (lex own : Bool) (s : Scope),
@@ -98,7 +92,6 @@ theorem emits (t : Tmpl) : Emits t := by
           isDefs (inlineDef lex name ps fl own (.seq (hoist s body) (.prim .getWriter)) (stmts s body)) = true :=
       fun lex own s => inlineDef_ws lex name ps fl own (ih.hoist s).1 (ih.hoist s).2 (ih.stmts s)
     refine ⟨fun _ => by simp only [stmts]; exact WS.skip, fun sc => ?_, fun sc => by simp only [callDefs]; exact mk _ _ _,
-      fun sc => by simp only [deepDefs]; exact seq_defs (mk _ _ _) (ih.deepDefs sc),
       fun _ => by simp only [bodyHoist]; exact skip_defs⟩
     simp only [hoist]
     split
@@ -111,7 +104,6 @@ theorem emits (t : Tmpl) : Emits t := by
       fun lex own s => inlineDef_ws lex name [] fl own (ih.hoist s).1 (ih.hoist s).2 (ih.stmts s)
     refine ⟨fun _ => by simp only [stmts]; exact WS.write _, fun sc => ?_,
       fun sc => by simp only [callDefs]; exact mk _ _ _,
-      fun sc => by simp only [deepDefs]; exact seq_defs (mk _ _ _) (ih.deepDefs sc),
       fun sc => by simp only [bodyHoist]; exact ih.hoist sc⟩
     simp only [hoist]
     refine seq_defs ?_ (ih.hoist _)
@@ -121,14 +113,13 @@ theorem emits (t : Tmpl) : Emits t := by
   | call e args body ih =>
     refine ⟨fun sc => ?_, fun _ => by simp only [hoist]; exact skip_defs,
       fun _ => by simp only [callDefs]; exact skip_defs,
-      fun sc => by simp only [deepDefs]; exact ih.deepDefs sc,
       fun _ => by simp only [bodyHoist]; exact skip_defs⟩
     simp only [stmts]
     exact WS.callTag _ (WS.seq (ih.callDefs _).1
       (WS.defn _ _ _ (WF.bare (ih.bodyHoist _).1 (ih.bodyHoist _).2 (WS.seq (ih.stmts _) (WS.ret _)))))
   | textTag fs s =>
     refine ⟨fun _ => ?_, fun _ => by simp only [hoist]; exact skip_defs,
-      fun _ => by simp only [callDefs]; exact skip_defs, fun _ => by simp only [deepDefs]; exact skip_defs,
+      fun _ => by simp only [callDefs]; exact skip_defs,
       fun _ => by simp only [bodyHoist]; exact skip_defs⟩
     simp only [stmts]
     split
@@ -136,16 +127,16 @@ theorem emits (t : Tmpl) : Emits t := by
     · exact WS.textTag _ (WS.write _)
   | include_ i => exact ⟨fun _ => by simp only [stmts]; exact WS.exprStmt _,
       fun _ => by simp only [hoist]; exact skip_defs,
-      fun _ => by simp only [callDefs]; exact skip_defs, fun _ => by simp only [deepDefs]; exact skip_defs,
+      fun _ => by simp only [callDefs]; exact skip_defs,
       fun _ => by simp only [bodyHoist]; exact skip_defs⟩
   | ret => exact ⟨fun _ => by simp only [stmts]; exact WS.ret _, fun _ => by simp only [hoist]; exact skip_defs,
-      fun _ => by simp only [callDefs]; exact skip_defs, fun _ => by simp only [deepDefs]; exact skip_defs,
+      fun _ => by simp only [callDefs]; exact skip_defs,
       fun _ => by simp only [bodyHoist]; exact skip_defs⟩
   | brk => exact ⟨fun _ => by simp only [stmts]; exact WS.brk, fun _ => by simp only [hoist]; exact skip_defs,
-      fun _ => by simp only [callDefs]; exact skip_defs, fun _ => by simp only [deepDefs]; exact skip_defs,
+      fun _ => by simp only [callDefs]; exact skip_defs,
       fun _ => by simp only [bodyHoist]; exact skip_defs⟩
   | cont => exact ⟨fun _ => by simp only [stmts]; exact WS.cont, fun _ => by simp only [hoist]; exact skip_defs,
-      fun _ => by simp only [callDefs]; exact skip_defs, fun _ => by simp only [deepDefs]; exact skip_defs,
+      fun _ => by simp only [callDefs]; exact skip_defs,
       fun _ => by simp only [bodyHoist]; exact skip_defs⟩
 
 theorem renderCallable_wf (top : Bool) (fl : DefFlags) (t : Tmpl) : WF (renderCallable top fl t) := by
